@@ -83,3 +83,33 @@ Example default_total_example :
     | None => false
     end) [(true, false); (false, false); (true, true); (false, true)] = true.
 Proof. vm_compute. reflexivity. Qed.
+
+(** C04_own_{comp,bt}_{implicit,default}_object: on dG / dH (default mode) the reactor under comp and bt returns an its_list
+    with the folded reaction, all four template / direction combinations (the identity separates: own_default_comp_bt_hyps) *)
+Example default_compbt_object_example :
+  forallb (fun sci : N * (bool * bool) =>
+    let s := fst sci in let core := fst (snd sci) in let inv := snd (snd sci) in
+    match rule_of core inv dG dH with
+    | Some (rc, l, r) =>
+        let host := substrate inv dG dH in
+        match read_its (api_engine (monos_on (tr_host host) (tr_pat l))) (fun _ _ _ => []) (own_opts inv true (SMember s) (Some 100%N) false) host (rc, l, r) C04_Reactor.fresh with
+        | (Some gs, _) => existsb (fun T' => regen_folded T' (if inv then dH else dG) (if inv then dG else dH)) gs
+        | _ => false end
+    | None => false
+    end) [(1%N, (true, false)); (2%N, (true, false)); (1%N, (false, true)); (2%N, (false, true)); (1%N, (true, true)); (2%N, (false, false))] = true.
+Proof. vm_compute. reflexivity. Qed.
+
+(** C04_explicit_h_any_order_keeps_reaction / C04_any_match_explicit_h_total_any_order: the REVERSED listing is an admissible
+    visiting order; with it _explicit_h also returns on the glued ITS of dG / dH and the result folds to the reaction *)
+From SK Require Import model.C03_Order proof.C04_ObjectExamples.
+Example any_order_example :
+  (forall (l : list N) x, In x (rev l) <-> In x l) /\ (forall l : list N, NoDup l -> NoDup (rev l)) /\
+  forallb (fun ci : bool * bool =>
+    match d_glued (fst ci) (snd ci) with
+    | Some T => match explicit_h_ord (@rev N) T with
+                | Some (T', _) => regen_folded T' (if snd ci then dH else dG) (if snd ci then dG else dH)
+                | None => false end
+    | None => false end) [(true, false); (false, false); (true, true); (false, true)] = true.
+Proof.
+  split; [intros l x; symmetry; apply in_rev|]. split; [intros l H; apply NoDup_rev; exact H|]. vm_compute. reflexivity.
+Qed.
